@@ -16,6 +16,10 @@
   * `MCmoves_eq_fold`, `MCmoves_refines`
                            a batch is the left fold of the single-move Metropolis rule and every
                            step refines the reference trial/update
+  * `history_refines`, `history_observables`
+                           any history of start / update / MCmoves batches within the documented
+                           preconditions keeps the compiled sampler a faithful representation of the
+                           reference sampler driven through the same history (induction)
 -/
 import OnsagerModel.C35
 import OnsagerProofs.C33
@@ -670,6 +674,99 @@ theorem transitions_eq {T : Table} {j : JState} {s : State} (h : Refines T j s) 
   · intro v hv; rw [← hocc]; exact hs.vac v hv
   · intro x hx; rw [h.1.len_occ]; exact hr x hx
   · exact hjv
+
+
+
+/-! ### whole histories of the compiled sampler -/
+
+/-- operations of the compiled sampler -/
+inductive JOp
+  | start (occ : List Int)
+  | move (a b : Nat)                       -- update(occsite, unoccsite)
+  | batch (moves : List (Nat × Nat × Rat))  -- MCmoves(occchoices, unoccchoices, kTlogu), zipped
+
+def jstep (T : Table) (j : JState) : JOp → JState
+  | .start occ => jstart T j occ
+  | .move a b => jupdate T j a b
+  | .batch ms => ms.foldl (fun j x => mcStep T j x.1 x.2.1 x.2.2) j
+
+/-- the reference sampler driven alongside (for a batch: move by move with the Metropolis rule on the
+    sites the compiled sampler picks) -/
+def rstep (T : Table) (j : JState) (s : State) : JOp → State
+  | .start occ => fresh T occ
+  | .move a b => (update T s [a] [b]).1
+  | .batch ms => refBatch T j s ms
+
+/-- the documented preconditions of the compiled sampler's methods in state `j` -/
+def okOp (T : Table) (j : JState) : JOp → Prop
+  | .start occ => occ.length = T.rows.length ∧ start T occ = .ok (fresh T occ)
+  | .move a b => j.occ[a]? = some 0 ∧ j.occ[b]? = some 1
+  | .batch ms => ∀ x ∈ ms, x.1 < j.nunocc ∧ x.2.1 < j.nocc
+
+def runPair (T : Table) : JState → State → List JOp → JState × State
+  | j, s, [] => (j, s)
+  | j, s, op :: ops => runPair T (jstep T j op) (rstep T j s op) ops
+
+def allOk (T : Table) : JState → List JOp → Prop
+  | _, [] => True
+  | j, op :: ops => okOp T j op ∧ allOk T (jstep T j op) ops
+
+theorem step_refines {T : Table} (hsort : RowsSorted T) (hne : T.nenergy ≤ T.value.size)
+    {j : JState} {s : State} (h : Refines T j s) (hs : Inv T s) (op : JOp) (hop : okOp T j op) :
+    Refines T (jstep T j op) (rstep T j s op) ∧ Inv T (rstep T j s op) := by
+  have hocc : s.occ = j.occ := by rw [← h.2]; rfl
+  have hcc : s.cc = j.cc := by rw [← h.2]; rfl
+  cases op with
+  | start occ =>
+    obtain ⟨hl, hst⟩ := hop
+    exact ⟨jstart_refines T j occ (fresh T occ) h.1.len_os h.1.len_us h.1.len_ix
+      (by rw [← hcc]; exact hs.cc_size) hl hst, start_inv T occ _ hl hst⟩
+  | move a b =>
+    obtain ⟨ha, hb⟩ := hop
+    have hv : ∀ v, T.vacancy = some v → v ≠ a ∧ v ≠ b := by
+      intro v hv
+      have := hs.vac v hv
+      rw [hocc] at this
+      constructor
+      · rintro rfl; rw [ha] at this; cases this
+      · rintro rfl; rw [hb] at this; cases this
+    exact ⟨(update_refines h a b (by rw [hocc]; exact ha) (by rw [hocc]; exact hb) hv).1,
+      (update_inv hs [a] [b]).1⟩
+  | batch ms => exact MCmoves_refines hsort hne ms j s h hs hop
+
+/-- **Any history of start / update / MCmoves batches on the compiled sampler, each call within its
+    documented precondition, keeps it a faithful representation of the reference sampler driven
+    through the same history** (induction over the history). -/
+theorem history_refines {T : Table} (hsort : RowsSorted T) (hne : T.nenergy ≤ T.value.size)
+    (ops : List JOp) (j : JState) (s : State) (h : Refines T j s) (hs : Inv T s) (hok : allOk T j ops) :
+    Refines T (runPair T j s ops).1 (runPair T j s ops).2 ∧ Inv T (runPair T j s ops).2 := by
+  induction ops generalizing j s with
+  | nil => exact ⟨h, hs⟩
+  | cons op ops ih =>
+    obtain ⟨h1, h2⟩ := step_refines hsort hne h hs op hok.1
+    exact ih _ _ h1 h2 hok.2
+
+/-- … hence, at the end of any such history, the compiled sampler reports the reference energy, and
+    for every admissible trial move the reference trial energy change. -/
+theorem history_observables {T : Table} (hsort : RowsSorted T) (hne : T.nenergy ≤ T.value.size)
+    (ops : List JOp) (j : JState) (s : State) (h : Refines T j s) (hs : Inv T s) (hok : allOk T j ops) :
+    jE T (runPair T j s ops).1 = energy T (runPair T j s ops).2 ∧
+    ∀ a b, (runPair T j s ops).1.occ[a]? = some 0 → (runPair T j s ops).1.occ[b]? = some 1 →
+      deltaE T (runPair T j s ops).2 [a] [b] = .ok (jdeltaE T (runPair T j s ops).1 a b) := by
+  obtain ⟨h1, h2⟩ := history_refines hsort hne ops j s h hs hok
+  refine ⟨by rw [E_eq, h1.2], ?_⟩
+  intro a b ha hb
+  have hocc : (runPair T j s ops).2.occ = (runPair T j s ops).1.occ := by rw [← h1.2]; rfl
+  have hv : ∀ v, T.vacancy = some v → v ≠ a ∧ v ≠ b := by
+    intro v hv
+    have := h2.vac v hv
+    rw [hocc] at this
+    constructor
+    · rintro rfl; rw [ha] at this; cases this
+    · rintro rfl; rw [hb] at this; cases this
+  have := deltaE_eq T _ a b hne ha hb hv (hsort.getD a) (hsort.getD b)
+  rw [h1.2] at this
+  exact this
 
 
 /-! ### non-vacuity: the hypotheses are satisfiable on a concrete non-trivial sampler -/
